@@ -1,6 +1,6 @@
 From Coq Require Import List NArith Bool String.
 From Coq.Strings Require Import Byte.
-From PM Require Import Base Lemmas Text TextLemmas Model Skeleton Quals Canon DecQual Roundtrip Lower2 Lower3 Cs2 Pypi.
+From PM Require Import Base Lemmas Text TextLemmas Model Skeleton Quals Canon DecQual Roundtrip Lower2 Lower3 Cs2 Pypi PypiAny.
 Import ListNotations.
 Local Open Scope string_scope.
 
@@ -25,7 +25,7 @@ Definition conds_tbl (cfg : config) : list (string * bool) :=
   [ ("lower-casing images are fixed points", tbl_img_fixed cfg); ("lower-casing images are scalar values", tbl_img_scalar cfg);
     ("lower-casing creates no ','", tbl_no_comma cfg); ("'-' is a dash char", dash_has_hyphen cfg);
     ("lower-casing creates no dash char", tbl_no_dash cfg); ("scan agrees with ASCII upper-case", scan_ascii_ok cfg);
-    ("'checksum' is a valid key", valid_key cfg s_checksum) ].
+    ("'checksum' is a valid key", valid_key cfg s_checksum); ("no dash char is a letter", dash_not_letter cfg) ].
 Definition cond_scan (cfg : config) : list (string * bool) := [ ("lower-casing scan catches every changing character", scan_lower_ne cfg) ].
 Definition cond_maven (cfg : config) : list (string * bool) := [ ("maven namespace test ignores empty segments", maven_ns_segments cfg) ].
 Definition all_true (l : list (string * bool)) : bool := forallb snd l.
@@ -36,4 +36,15 @@ Proof.
   unfold all_true, conds_rt. cbn [forallb snd]. rewrite !andb_true_iff, !negb_true_iff. intros H.
   repeat match type of H with _ /\ _ => let H1 := fresh in destruct H as [H1 H] end.
   constructor; try assumption; constructor; assumption.
+Qed.
+
+(* the table facts as one record, obtained from the named list by computation *)
+Record tbl_ok (cfg : config) : Prop := {
+  t_fix : tbl_img_fixed cfg = true; t_sc : tbl_img_scalar cfg = true; t_nc : tbl_no_comma cfg = true; t_hy : dash_has_hyphen cfg = true;
+  t_nd : tbl_no_dash cfg = true; t_sa : scan_ascii_ok cfg = true; t_ck : valid_key cfg s_checksum = true; t_dl : dash_not_letter cfg = true }.
+Lemma conds_tbl_ok cfg : all_true (conds_tbl cfg) = true -> tbl_ok cfg.
+Proof.
+  unfold all_true, conds_tbl. cbn [forallb snd]. rewrite !andb_true_iff. intros H.
+  repeat match type of H with _ /\ _ => let H1 := fresh in destruct H as [H1 H] end.
+  constructor; assumption.
 Qed.
